@@ -768,8 +768,16 @@ static RScene genParamScene(vh::Rng &r, bool orth, int maxConns, bool crossStage
                 double d1 = m + (double) r.range(1, 4), d2 = m + (double) r.range(1, 12);
                 static const double offs[] = {0, 0, 0, 1, -1, 3, -2};
                 double off = offs[r.range(0, 6)];
-                if (vert) { c.sx = (double) r.range((long) q.x0 - 2, (long) q.x1 + 2); c.sy = q.y0 - d1; c.tx = c.sx + off; c.ty = q.y1 + d2; }
-                else { c.sy = (double) r.range((long) q.y0 - 2, (long) q.y1 + 2); c.sx = q.x0 - d1; c.ty = c.sy + off; c.tx = q.x1 + d2; }
+                // position along the obstacle: anywhere, or (half of the time) within 1-5 of one of its ends — where an arm of a
+                // bar makes the short way round lead backwards first
+                auto along = [&](double lo, double hi) -> double {
+                    if (r.coin()) return (double) r.range((long) lo - 2, (long) hi + 2);
+                    double e = (double) r.range(1, 5);
+                    return r.coin() ? std::min(hi, lo + e) : std::max(lo, hi - e);
+                };
+                bool flip = r.coin();                      // which side the source is on
+                if (vert) { c.sx = along(q.x0, q.x1); c.sy = flip ? q.y1 + d1 : q.y0 - d1; c.tx = c.sx + off; c.ty = flip ? q.y0 - d2 : q.y1 + d2; }
+                else { c.sy = along(q.y0, q.y1); c.sx = flip ? q.x1 + d1 : q.x0 - d1; c.ty = c.sy + off; c.tx = flip ? q.x0 - d2 : q.x1 + d2; }
                 if (r.coin()) { std::swap(c.sx, c.tx); std::swap(c.sy, c.ty); }
             } else if (mode <= 4) {                        // free source; target exactly aligned with it on one axis
                 if (!freePt(c.sx, c.sy)) continue;
@@ -833,22 +841,13 @@ static void caseRouteSymmetryParams(long k, vh::Rng &r) {
     vh::endCase();
 }
 
-// route-translate-params: the same scenes (any parameters, the crossing stage included, optional shape move) translated
+// route-translate (params): the same scenes (any parameters, the crossing stage included, optional shape move) translated
 // by a multiple of 2^-10: raw routes translate exactly
 static void caseRouteTranslateParams(long k, vh::Rng &r) {
     bool orth = r.coin(2, 3);
-    vh::beginCase(k, orth ? "route-translate-params-orth" : "route-translate-params");
+    // same tags as the plain translation classes (the driver recognises the wider class by its `param` lines)
+    vh::beginCase(k, orth ? "route-translate-orth" : "route-translate");
     RScene s = genParamScene(r, orth, 4, true);
-    // nudgeOrthogonalSegmentsConnectedToShapes with two connectors sharing an end point: which of the two end segments is
-    // nudged away depends on the translation (finding, see C20.py) — that combination is not generated
-    if (s.opt[Avoid::nudgeOrthogonalSegmentsConnectedToShapes] == 1) {
-        bool shared = false;
-        for (size_t i = 0; i < s.conns.size(); ++i) for (size_t j = i + 1; j < s.conns.size(); ++j) {
-            const Cn &a = s.conns[i], &b = s.conns[j];
-            if ((a.sx == b.sx && a.sy == b.sy) || (a.sx == b.tx && a.sy == b.ty) || (a.tx == b.sx && a.ty == b.sy) || (a.tx == b.tx && a.ty == b.ty)) shared = true;
-        }
-        if (shared) s.opt[Avoid::nudgeOrthogonalSegmentsConnectedToShapes] = 0;
-    }
     if (r.coin(1, 3)) {
         s.moveIdx = (int) r.range(0, (long) s.rects.size() - 1);
         s.mdx = (double) r.range(-2, 2) * 0.5; s.mdy = (double) r.range(-2, 2) * 0.5;
@@ -1318,7 +1317,7 @@ int main(int argc, char **argv) {
         caseCmp(k, r);
     }
     // classes *-params (all routing parameters / options, degenerate alignments): own index range after `cmp`
-    long nsym = (thorough ? 1500 : 320) * a.scale, ntr = (thorough ? 800 : 160) * a.scale;
+    long nsym = (thorough ? 4000 : 1000) * a.scale, ntr = (thorough ? 1500 : 300) * a.scale;
     for (long j = 0; j < nsym + ntr; ++j) {
         long k = rounds * NCLASS + ncmp + j;
         if (!a.want(k)) continue;
